@@ -126,6 +126,36 @@ CLAIMED = {
         note="Trusted: a block = nine tables + plain vectors/maps copied by value (the vectors are not modelled); AddressSanitizer exposes "
              "dangling references; std::deque reference stability on move.",
         technique="Lean 4 proof (frame/ownership invariant over an explicit heap) + differential correspondence under ASan", design="§4 C19"),
+    "C14": dict(
+        text="Lean 4: for EVERY streaming codec satisfying the contract Codec.Sound, the gzip/xz writer loops consume exactly the chunks "
+             "written (write_consumes_all) and what reaches the inner writer decodes to them (compressed_equals_plain); the on-stack scratch "
+             "buffer is bounded by 64 KiB for every chunk size (scratch_bounded); the contract is inhabited (storeCodec_sound). Decision on "
+             "the implementation: identical call sequences on plain/gzip/xz writers (name and descriptor targets, chunks 0 B..8 MiB quick, "
+             "64 MiB thorough, rotations); each compressed output must be one complete stream with its suffix decompressing (Python "
+             "zlib/lzma) to the plain output; plus end-to-end exporter sessions.",
+        note="Partial: zlib/liblzma satisfying the contract and loop termination (compressor progress) are assumed, validated only by "
+             "decompression with independent implementations; no model-vs-implementation replay of the deflate calls yet.",
+        technique="Lean 4 proof parametric in an abstract codec contract + differential decompression oracle", design="§4 C14"),
+    "C15": dict(
+        text="Lean 4: final_names_complete - in the syscall/file-system model of named outputs (open .part, data in ANY split into writes, "
+             "close, rename; any number of outputs, repeated names, arbitrary initial file system) at EVERY crash point a final name holds "
+             "the old file or a complete output. Tied by (1) the real syscall trace (write/writev/rename interposed) vs the model's "
+             "canonical trace, file closed before rename; (2) real crash enumeration: _exit before the k-th syscall for every k of every "
+             "scenario (plain/gzip/xz, rotations, rotation onto an existing name, destruction with/without buffered data).",
+        note="Partial: process death only (no fsync/power-loss ordering), rename(2) atomicity and libstdc++ ofstream trusted; fclose is not "
+             "interposable, 'closed before rename' is read from /proc/self/fd.",
+        technique="Lean 4 proof (trace invariant over all prefixes) + syscall-trace correspondence + exhaustive crash-point enumeration", design="§4 C15"),
+    "C16": dict(
+        text="Lean 4 over writer models with fault schedules: bw_failure_reported / nw_failure_reported (descriptor writer; named writer with "
+             "an ofstream buffer flushed at arbitrary times): if no write and not the closing rotate threw, the OS holds every byte; "
+             "bw_reported_once; bw_recovery / nw_recovery (rotation yields a fresh writer, does not rethrow a reported failure). Decision on "
+             "the implementation: every fault point k (ENOSPC / EIO / short; single and persistent) of scripted scenarios x "
+             "{name,descriptor} x {none,gzip,xz} injected through interposed write/writev; oracle: loss => exception no later than the closing "
+             "rotate; throwing write_block keeps its records; rotate to a healthy destination succeeds; next write_block yields a valid file "
+             "with the kept records (validated by the Lean reader).",
+        note="Partial: encoder staging buffer and compressor layers only propagate the bottom writers' exceptions - composition tied by "
+             "fault injection, not proved. Interpretation: a rotate_output after an already REPORTED failure returns normally.",
+        technique="Lean 4 proof over fault-schedule models + exhaustive fault-point injection via syscall interposition", design="§4 C16"),
 }
 REASON_PENDING = "check not built yet in this revision (work in progress; see DESIGN.md §8 build order)"
 
